@@ -252,7 +252,10 @@ func c10Random(r *Rng) C10Case {
 		"RAll", jobj("allOf", []any{jobj("type", "string"), jref("schemas", "RAll")}),
 		"ROne", jobj("oneOf", []any{jobj("type", "integer"), jref("schemas", "ROne")}),
 		// several types, not in alphabetical order: the order is part of the document (parameters are read as the first type that parses)
-		"MT", jobj("type", []any{"string", "integer"}, "minimum", 10.0)))
+		"MT", jobj("type", []any{"string", "integer"}, "minimum", 10.0),
+		// recursive schemas that do not say `type` (the recursion goes through a property / the items: it consumes the value)
+		"TRec", jobj("properties", jobj("next", jref("schemas", "TRec"), "v", jobj("type", "integer"))),
+		"TItems", jobj("items", jref("schemas", "TItems"))))
 	paths := map[string]any{}
 	var templates []string
 	methodsOf := map[string][]string{}
@@ -338,7 +341,7 @@ func c10Random(r *Rng) C10Case {
 				content := map[string]any{}
 				for k := 0; k < 1+r.Intn(2); k++ {
 					ct := Pick(r, []string{"application/json", "text/plain", "application/x-www-form-urlencoded", "multipart/form-data", "application/octet-stream", "application/problem+json", "*/*", "text/csv", "application/zip", "application/x-yaml"})
-					mt := jobj("schema", Pick(r, []any{c10Schema(r, 2), jref("schemas", "Rec"), jref("schemas", "D"), jref("schemas", "M"), jref("schemas", "MT"), jobj("type", "object", "properties", jobj("a", c10Schema(r, 1), "f", jobj("type", "string", "format", "binary")))}))
+					mt := jobj("schema", Pick(r, []any{c10Schema(r, 2), jref("schemas", "Rec"), jref("schemas", "D"), jref("schemas", "M"), jref("schemas", "MT"), jref("schemas", "TRec"), jref("schemas", "TItems"), jobj("type", "object", "properties", jobj("a", c10Schema(r, 1), "f", jobj("type", "string", "format", "binary")))}))
 					if ct == "multipart/form-data" && r.Chance(50) {
 						mt = jobj("schema", jref("schemas", "M"))
 					}
